@@ -37,8 +37,10 @@ def rval(v):
         return v[1]
     if v[0] == 'lab+':
         return f'{v[1]}+{v[2]}' if v[2] >= 0 else f'{v[1]}-{-v[2]}'
-    if v[0] == 'raw':
-        return v[1]
+    if v[0] == 'chr':
+        return f"'{v[1]}'"
+    if v[0] == 'chr+':
+        return f"'{v[1]}'+{v[2]}"
     raise ValueError(v)
 
 
@@ -107,7 +109,7 @@ def render_stmt(s):
         return f'; {s[1]}'
     if k == 'blank':
         return ''
-    if k == 'raw':           # verbatim text with a declared meaning: ('raw', text, equivalent_stmt)
+    if k == 'rawbytes':      # verbatim line whose bytes the generator states: ('rawbytes', text, bytes)
         return s[1]
     raise ValueError(s)
 
@@ -278,6 +280,10 @@ class RefAsm:
             return self.lookup(scope, v[1])
         if v[0] == 'lab+':
             return self.lookup(scope, v[1]) + v[2]
+        if v[0] == 'chr':
+            return ord(v[1])
+        if v[0] == 'chr+':
+            return ord(v[1]) + v[2]
         raise ValueError(v)
 
     # -- conditions ------------------------------------------------------------------------------
@@ -492,6 +498,8 @@ class RefAsm:
         if k == 'zerountil':
             a = self.value(line.scope, s[1])
             return a - line.addr + 1 if a >= line.addr else 0
+        if k == 'rawbytes':
+            return len(s[2])
         return 0
 
     def place(self):
@@ -592,6 +600,8 @@ class RefAsm:
                 line.bytes = bytes([self.value(line.scope, s[2]) & 0xFF]) * line.size
             elif k in ('zero', 'zerountil'):
                 line.bytes = bytes(line.size)
+            elif k == 'rawbytes':
+                line.bytes = bytes(s[2])
             assert len(line.bytes) == line.size, (line.stmt, line.size, line.bytes)
         # predefined data blocks are lines of the GLOBAL zone too
         blocks = []
